@@ -170,3 +170,60 @@ def proxyRecv (fixed : Bool) (size : Nat) : Nat → List Nat → Nat → Option 
     | none => proxyRecv fixed size (have_ + g) gs fuel
 
 end PV.Blocking
+
+/-! ### many callers blocked on the same object
+
+`Condition.notify_all()` / `Event.set()` reach every waiter; `Condition.notify()` reaches one.  The
+shutdown paths use `notify_all` (accept, `_set_closed`, `BufferedPipe.close`), so callers do not
+interact: the many-caller system projects onto the one-caller system above. -/
+namespace PV.Blocking
+
+structure MSt where
+  active : Bool
+  flag : Bool
+  lossPc : Nat
+  cs : List (Pc × Bool)      -- per caller: program counter, notified
+  deriving DecidableEq, Repr
+
+inductive MTid | caller (i : Nat) | loss
+  deriving DecidableEq, Repr
+
+def MSt.view (m : MSt) (c : Pc × Bool) : St :=
+  { active := m.active, flag := m.flag, lossPc := m.lossPc, pc := c.1, notified := c.2 }
+
+def minit (n : Nat) : MSt :=
+  { active := true, flag := false, lossPc := 0, cs := List.replicate n (.start, false) }
+
+/-- `all = true`: notify_all (what the code does); `all = false`: notify() wakes the first waiter only -/
+def notifyCallers (all : Bool) : List (Pc × Bool) → List (Pc × Bool)
+  | [] => []
+  | (pc, nt) :: rest =>
+    if pc == .waiting then (pc, true) :: (if all then notifyCallers all rest else rest)
+    else (pc, nt) :: notifyCallers all rest
+
+def mstepLoss (api : Api) (l : Loss) (all : Bool) (m : MSt) : MSt :=
+  match (api.prog l)[m.lossPc]? with
+  | none => m
+  | some .setInactive => { m with active := false, lossPc := m.lossPc + 1 }
+  | some .setFlag => { m with flag := true, lossPc := m.lossPc + 1 }
+  | some .notify => { m with cs := notifyCallers all m.cs, lossPc := m.lossPc + 1 }
+
+def mstep (api : Api) (l : Loss) (all : Bool) (m : MSt) : MTid → MSt
+  | .loss => mstepLoss api l all m
+  | .caller i =>
+    match m.cs[i]? with
+    | none => m
+    | some c =>
+      let s' := stepCaller api (m.view c)
+      { m with cs := m.cs.set i (s'.pc, s'.notified) }
+
+def mrun (api : Api) (l : Loss) (all : Bool) (m : MSt) (sch : List MTid) : MSt :=
+  sch.foldl (mstep api l all) m
+
+/-- the schedule as caller `i` sees it: its own steps and the loss steps -/
+def projSched (i : Nat) : List MTid → List Tid
+  | [] => []
+  | .loss :: r => .loss :: projSched i r
+  | .caller j :: r => if j = i then .caller :: projSched i r else projSched i r
+
+end PV.Blocking
